@@ -49,7 +49,8 @@ func streamWorld(c *core.Ctx, nframes int, produce func(k int) [][]byte, deliver
 
 func init() {
 	register(&Check{
-		ID: "C11", Level: "exploration", Configs: c11Configs(),
+		ID:      "C11",
+		Tenants: func(c *core.Ctx, i int) tenant { return tenantCodec(c, kVP8, kVP8) }, Level: "exploration", Configs: c11Configs(),
 		Run:         runC11,
 		QuickRuns:   240_000,
 		ThoroughSec: 480,
@@ -326,7 +327,8 @@ func runC11Foreign(c *core.Ctx) {
 
 func init() {
 	register(&Check{
-		ID: "C12", Level: "exploration", Configs: []string{"clean", "foreign"},
+		ID:      "C12",
+		Tenants: func(c *core.Ctx, i int) tenant { return tenantCodec(c, kVP9, kVP9Flex) }, Level: "exploration", Configs: []string{"clean", "foreign"},
 		Run:         runC12,
 		QuickRuns:   1_000_000,
 		ThoroughSec: 480,
